@@ -20,12 +20,20 @@ def draw_schedule(rng, ab, gen, identity=False, p_sets=0.8, p_heap=0.8):
     }
 
 
+SEAM_STATS = {"schedules": 0, "schedules_set_seam_on": 0, "schedules_heap_seam_on": 0,
+              "schedules_canonical_order": 0}
+
+
 def apply_schedule(s):
     """Install exactly the seams the schedule asks for and hand the scheduler
     its seed.  (Each run lives in its own forked process; install/uninstall
     only matters between the schedules of one run.)"""
     import genlm.grammar.cfg as cfgmod
 
+    SEAM_STATS["schedules"] += 1
+    SEAM_STATS["schedules_set_seam_on"] += bool(s.get("sets"))
+    SEAM_STATS["schedules_heap_seam_on"] += bool(s.get("heap"))
+    SEAM_STATS["schedules_canonical_order"] += (s.get("order_seed", 0) == 0)
     if not s.get("sets") or not s.get("heap"):
         chaos.uninstall()
     chaos.install(sets=bool(s.get("sets")), heap=bool(s.get("heap")))
